@@ -576,9 +576,10 @@ def capitalizeAscii : Str → Str
   | [] => []
   | c :: cs => c.toUpper :: cs.map Char.toLower
 
-/-- `check_capitalization` (`CAMEL_CASE_EXPRESSION` finds a match iff the name has a letter A-Z) -/
+/-- `check_capitalization` (`CAMEL_CASE_EXPRESSION` finds a match iff the name has a letter A-Z); the names are
+those of `org_base_tag[len(schema_namespace):]` — the library namespace is not part of the tag name (fix de26284) -/
 def styleIssues (t : RTag) : List Issue :=
-  if (splitSlash (orgBase t)).any (fun n => n != capitalizeAscii n && !n.any isAsciiUpper)
+  if (splitSlash ((orgBase t).drop t.ns.length)).any (fun n => n != capitalizeAscii n && !n.any isAsciiUpper)
   then [tagIssue .style t] else []
 
 /-- `run_individual_tag_validators` -/
